@@ -2,9 +2,21 @@
    Proved: the decision applied to every answer (nn_b, exact integer squared distances) is exactly NNSpec.
    The greedy-walk argument (local minimum on a Delaunay triangulation is global) is classical and not proved. *)
 From Coq Require Import ZArith List Bool Arith.
-From SpadeV Require Import Geom.Pred Obs.State Obs.Spec Obs.SpecProp Obs.Query Obs.QueryProp Obs.QueryProofs.
+From SpadeV Require Import Geom.Pred Obs.State Obs.Spec Obs.SpecProp Obs.Query Obs.QueryProp Obs.QueryProofs Dcel.Raw Dcel.WfCore Tri.Legalize Tri.Locate Tri.LocateProofs.
 
 Theorem C15_checker_is_spec : forall s pts q r, nn_b s pts q r = true <-> NNSpec s pts q r.
 Proof. exact nn_b_spec. Qed.
 
+(* the greedy walk (model of walk_to_nearest_neighbor with exact distances) terminates on every well-formed DCEL and stops at a vertex
+   none of whose neighbours is strictly closer *)
+Theorem C15_walk_terminates : forall pts d q start,
+  DWf d -> start < Raw.num_vertices d -> walk_to_nearest pts d q start <> None.
+Proof. exact walk_to_nearest_terminates. Qed.
+Theorem C15_walk_stops_at_local_minimum : forall pts d q start v,
+  walk_to_nearest pts d q start = Some v ->
+  forall e, In e (Locate.out_edges_of d v) -> (dist2 (vpos pts v) q <= dist2 (vpos pts (e_to d e)) q)%Z.
+Proof. exact walk_local_min. Qed.
+
+Print Assumptions C15_walk_terminates.
+Print Assumptions C15_walk_stops_at_local_minimum.
 Print Assumptions C15_checker_is_spec.
